@@ -5,7 +5,7 @@ patch=$1; shift
 cd /repo || exit 2
 if [ -n "$(git status --porcelain)" ]; then echo "/repo not clean" >&2; exit 2; fi
 git apply "$patch" || { echo "patch does not apply" >&2; exit 2; }
-trap 'git -C /repo checkout -- . >/dev/null 2>&1' EXIT
+trap 'git -C /repo checkout -- . >/dev/null 2>&1; git -C /repo clean -fdq pkg >/dev/null 2>&1' EXIT
 cd /verif
 for p in "$@"; do
   out=$(./check "$p" quick 2>&1); rc=$?
